@@ -54,8 +54,10 @@ PROPS["C05"] = {
 # C06: the sites that CREATE offsets are compared in full; every other part is covered by the monitor's validity clause
 _P_C06 = ["deliver", "ctx", "openreq", "failstop"]
 PROPS["C06"] = {
-    "streams": ["sess-deliver", "sess-save"], "audit": "C06.lean", "shrink": True, "clauses": ["C06"],
-    "compare_parts": {"sess-deliver": _P_C06, "sess-save": _P_C06},
+    "streams": ["sess-deliver", "sess-save", "c15w"], "audit": "C06.lean", "shrink": True, "clauses": ["C06"],
+    # of the start-up stream (child processes) only the monitor's validity clause on the logged stream requests is used:
+    # whatever start-up does with an odd checkpoint, a request it sends must name a valid resume point
+    "compare_parts": {"sess-deliver": _P_C06, "sess-save": _P_C06, "c15w": {"fields": []}},
     "rule": _SESS_RULE, "assumptions": _SESS_ASSUME + ["initially stored checkpoints are valid resume points (generator) - the invariant is inductive from there"],
     "design_ref": "DESIGN.md §7 C06",
     "level_text": "Kernel-checked inductive invariant (Props/C06): every offset in positions, delivered contexts, saver dumps and the store satisfies snapStart <= seq <= snapEnd for ALL histories; every delivered offset is the tuple of one event and the marker current at that event with the stream's vbUUID, and contexts are never modified afterwards; an event outside its snapshot yields fail-stop and nothing else. Monitor: validity of every offset in every real observation, fail-stop delivers nothing.",
